@@ -106,7 +106,7 @@ def run(res):
         cmd = [exe, "--out", out, "--timeout", "40"] + args
         for kk, vv in sets.items():
             cmd += ["--set", "%s=%s" % (kk, vv)]
-        rc, log = vlib.sh(cmd, timeout=70)
+        rc, log = vlib.sh(cmd, timeout=40 * 8 + 60)    # the recorder extends its own 40 s alarm while the session still makes progress
         evs = []
         if os.path.exists(out + ".ev"):
             for line in open(out + ".ev"):
